@@ -410,7 +410,7 @@ class NF:
             idx = self.ev(e.slice, env)
             if base[0] == "op" and base[1] == "repeat" and base[2][0][0] == "list" and len(base[2][0][1]) == 1 and base[2][0][1][0][0] != "splat":
                 return base[2][0][1][0]
-            if base[0] == "list" and idx[0] == "const" and isinstance(idx[1], int) and 0 <= idx[1] < len(base[1]) \
+            if base[0] in ("list", "tuple") and idx[0] == "const" and isinstance(idx[1], int) and 0 <= idx[1] < len(base[1]) \
                     and not any(x[0] == "splat" for x in base[1][: idx[1] + 1]):
                 return base[1][idx[1]]
             return ("index", base, idx)
@@ -472,12 +472,13 @@ class NF:
     # ------------------------------------------------------------------ comprehensions
     def comp(self, e, env: Env):
         gens = e.generators
-        if len(gens) == 1 and not gens[0].ifs and isinstance(gens[0].target, ast.Name):
+        if len(gens) == 1 and not gens[0].ifs and (isinstance(gens[0].target, ast.Name) or (
+                isinstance(gens[0].target, (ast.Tuple, ast.List)) and all(isinstance(x, ast.Name) for x in gens[0].target.elts))):
             src = self.ev(gens[0].iter, env)
             var = ("var", env.vdepth)
             st = self.type_of(src, env)
             env2 = env.child(vdepth=env.vdepth + 1)
-            env2.vars[gens[0].target.id] = var
+            self._bind_target(gens[0].target, var, env2)
             if isinstance(st, tuple) and st[0] == "list":
                 env2.types[var] = st[1]
             body = self.ev(e.elt, env2)
@@ -490,11 +491,15 @@ class NF:
             var = ("var", env2.vdepth)
             env2 = env2.child(vdepth=env2.vdepth + 1)
             self._bind_target(g.target, var, env2)
-            ifs = tuple(self.ev(i, env2) for i in g.ifs)
+            ifs = []
+            for i in g.ifs:
+                t_ = self.ev(i, env2)
+                ifs += list(t_[2]) if t_[0] == "op" and t_[1] == "And" else [t_]        # `if a and b` filters like `if a if b`
+            ifs = tuple(ifs)
             out.append((src, ifs))
         body = self.ev(e.elt, env2)
         # fusion: [B(v) for v in [A(w) for w in S] if C(v)]  ->  [B(A(w)) for w in S if C(A(w))]
-        if len(out) == 1 and out[0][0][0] == "map" and isinstance(gens[0].target, ast.Name):
+        if len(out) == 1 and out[0][0][0] == "map":
             src, ifs = out[0]
             var = ("var", env.vdepth)
             inner_var, inner_body, inner_src = src[1][1], src[1][2], src[2]
@@ -573,7 +578,7 @@ class NF:
             return self.eta(mk_ctor(t[1], {p: self.simplify(v, env) for p, v in t[2]}), env)
         if k == "index":
             b, i = self.simplify(t[1], env), self.simplify(t[2], env)
-            if b[0] == "list" and i[0] == "const" and isinstance(i[1], int) and 0 <= i[1] < len(b[1]) and not any(x[0] == "splat" for x in b[1][: i[1] + 1]):
+            if b[0] in ("list", "tuple") and i[0] == "const" and isinstance(i[1], int) and 0 <= i[1] < len(b[1]) and not any(x[0] == "splat" for x in b[1][: i[1] + 1]):
                 return b[1][i[1]]
             return ("index", b, i)
         return tuple(self.simplify(x, env) if isinstance(x, tuple) else x for x in t)
@@ -1019,6 +1024,10 @@ class NF:
             if isinstance(s, ast.Assign) and len(s.targets) == 1:
                 v = self.ev(s.value, env)
                 self._assign(s.targets[0], v, env)
+                continue
+            if isinstance(s, ast.AugAssign) and isinstance(s.target, ast.Name) and isinstance(s.op, ast.Add) and s.target.id in env.vars:
+                # x += E  (a local being built): x = x + E
+                env.vars[s.target.id] = self.ev(ast.BinOp(left=ast.Name(id=s.target.id, ctx=ast.Load()), op=ast.Add(), right=s.value), env)
                 continue
             if isinstance(s, ast.AnnAssign) and isinstance(s.target, ast.Name):
                 if s.value is not None:
